@@ -69,6 +69,8 @@ JRev(T) ==
        \* histories: a reversal after one of the two scaffolds was changed is the reversal of the rows as they are NOW
        /\ ((T.rev_again = FlipT(T.rows) /\ T.rev_of_changed = FlipT(T.changed) /\ T.rev_after_own_change = FlipT(T.own_changed))
              \/ Say(T, "V", "C14.reverse_once", "after-change"))
+       /\ ("inplace" \notin DOMAIN T \/ (T.rev_of_inplace = FlipT(T.inplace) /\ T.rev_of_appended = FlipT(T.appended))
+             \/ Say(T, "V", "C14.reverse_once", "after-change-in-place"))
 
 CompCodes == <<<<65, 84>>, <<66, 86>>, <<67, 71>>, <<68, 72>>, <<71, 67>>, <<72, 68>>, <<75, 77>>, <<77, 75>>, <<78, 78>>, <<82, 89>>, <<83, 83>>, <<84, 65>>, <<86, 66>>, <<87, 87>>, <<89, 82>>, <<97, 116>>, <<98, 118>>, <<99, 103>>, <<100, 104>>, <<103, 99>>, <<104, 100>>, <<107, 109>>, <<109, 107>>, <<110, 110>>, <<114, 121>>, <<115, 115>>, <<116, 97>>, <<118, 98>>, <<119, 119>>, <<121, 114>>>>
 CompCode(b) == IF \E q \in 1..Len(CompCodes) : CompCodes[q][1] = b THEN CompCodes[CHOOSE q \in 1..Len(CompCodes) : CompCodes[q][1] = b][2] ELSE b
